@@ -66,6 +66,8 @@ func runC16(c *Ctx) {
 			}
 		}
 	}
+	c.NotArmed("C16.R3.only-first-fetcher-stores", "storing the same fetched token again from a coalesced waiter is idempotent; not a necessary condition of the property")
+	c.NotArmed("C16.R2.service-parameter", "the `service` challenge parameter is not a secret-bearing destination; only the realm (where credentials travel) is traced")
 	c16R1(e)
 	c16R2(e)
 	c16R3(e)
@@ -230,18 +232,24 @@ func c16R1(e *c16Env) {
 	// (a) registry argument of cache calls and scope lookups
 	seen := map[string]int{}
 	n := 0
-	for _, call := range Calls(D, func(n string) bool { return strings.HasPrefix(n, c16Cache) || n == c16AllScopes }) {
-		name := CalleeName(call)
-		seen[name]++
-		n++
-		args := call.Common().Args
-		ok, why := len(args) >= 2, "no registry argument"
-		if ok {
-			ok, why = e.hostOnly(args[1])
+	for _, f := range e.clientFns() {
+		if f.Object() != nil && f.Object().Exported() && f != D {
+			continue // exported scope helpers (GetAllScopesForHost itself, …) are API, not the auth flow
 		}
-		c.Check(R, fmt.Sprintf("%s|%s#%d|registry-arg", dn, name, seen[name]), call.Pos(), ok,
-			ifelse(ok, "the registry argument is the value loaded from originalReq.Host",
-				"the registry argument is not the host of the request being authenticated ("+why+"): a token or scheme cached for one registry is looked up / stored for another"))
+		for _, call := range Calls(f, func(n string) bool { return strings.HasPrefix(n, c16Cache) || n == c16AllScopes }) {
+			name := CalleeName(call)
+			k := FnName(f) + "|" + name
+			seen[k]++
+			n++
+			args := call.Common().Args
+			ok, why := len(args) >= 2, "no registry argument"
+			if ok {
+				ok, why = e.hostOnly(args[1])
+			}
+			c.Check(R, fmt.Sprintf("%s#%d|registry-arg", k, seen[k]), call.Pos(), ok,
+				ifelse(ok, "the registry argument is the value loaded from originalReq.Host",
+					"the registry argument is not the host of the request being authenticated ("+why+"): a token or scheme cached for one registry is looked up / stored for another"))
+		}
 	}
 	if n == 0 {
 		c.LostAnchor(R, dn+": calls of Cache.GetScheme/GetToken/Set")
@@ -290,15 +298,18 @@ func c16R1(e *c16Env) {
 			}
 			nh++
 			key := fmt.Sprintf("%s|Authorization#%d", FnName(f), nh)
-			if f != D {
-				c.Violation(R, key+"|outside-Do", call.Pos(), "an Authorization header is set outside Client.Do: not covered by the confirmed per-host flow")
-				continue
-			}
-			// receiver: load of X.Header with X a clone
+			// receiver: load of X.Header with X a clone (traced through helper parameters)
 			okClone := false
 			if ld, ok := args[0].(*ssa.UnOp); ok && ld.Op == token.MUL {
 				if fa, ok := ld.X.(*ssa.FieldAddr); ok && fieldName(fa.X.Type(), fa.Field) == "net/http.Request.Header" {
-					okClone = e.isReqOrClone(fa.X, false)
+					if o, why := e.origins(fa.X, 0); why == "" && len(o) > 0 {
+						okClone = true
+						for _, x := range o {
+							if !e.isReqOrClone(x, false) {
+								okClone = false
+							}
+						}
+					}
 				}
 			}
 			c.Check(R, key+"|on-clone", call.Pos(), okClone,
@@ -314,7 +325,7 @@ func c16R1(e *c16Env) {
 				case "Bearer ":
 					want = bearer
 				}
-				rs := Roots(bo.Y)
+				rs := c16TokenSources(bo.Y, 0)
 				okVal = okP && want >= 0 && len(rs) > 0
 				for _, r := range rs {
 					ex, isEx := r.(*ssa.Extract)
@@ -340,6 +351,32 @@ func c16R1(e *c16Env) {
 	if nh == 0 {
 		c.LostAnchor(R, dn+": Authorization header assignments")
 	}
+}
+
+// c16TokenSources resolves a token value to the values that produce it,
+// looking through results of in-package helpers (two levels).
+func c16TokenSources(v ssa.Value, depth int) []ssa.Value {
+	var out []ssa.Value
+	for _, r := range Roots(v) {
+		if ex, ok := r.(*ssa.Extract); ok && depth < 2 {
+			if call, ok := ex.Tuple.(*ssa.Call); ok {
+				if g := StaticCallee(call); g != nil && fnPkgPath(g) == pkgPath(c16Pkg) && len(g.Blocks) > 0 {
+					for _, a := range RetAtoms(g, ex.Index) {
+						if _, isZero := a.Val.(zeroMarker); isZero {
+							continue
+						}
+						if k, isK := a.Val.(*ssa.Const); isK && k.Value != nil && k.Value.Kind() == constant.String && constant.StringVal(k.Value) == "" {
+							continue // the "" returned next to an error
+						}
+						out = append(out, c16TokenSources(a.Val, depth+1)...)
+					}
+					continue
+				}
+			}
+		}
+		out = append(out, r)
+	}
+	return out
 }
 
 // c16SendCalls: calls in fn whose static callee (depth<=2) performs http.Client.Do.
@@ -1025,8 +1062,6 @@ func c16BearerKeys(e *c16Env) {
 	const R = "C16.R3.bearer-key-is-scope-set"
 	c := e.c
 	c.Expect(R, 4)
-	D := e.Do
-	dn := FnName(D)
 	_, bearer, ok := c16SchemeConsts(c)
 	if !ok {
 		c.LostAnchor(R, "SchemeBearer")
@@ -1038,13 +1073,19 @@ func c16BearerKeys(e *c16Env) {
 			return false, describe(v)
 		}
 		switch CalleeName(call) {
-		case c16AllScopes, "~/registry/remote/auth.CleanScopes":
-			return true, ""
+		case c16AllScopes, "~/registry/remote/auth.CleanScopes", "~/registry/remote/auth.GetScopesForHost", "~/registry/remote/auth.GetScopes":
+			return true, "" // every one of them yields a CleanScopes-canonical list
 		}
 		return false, CalleeName(call)
 	}
 	idx := 0
-	for _, call := range c16CacheCalls(D) {
+	var calls []ssa.CallInstruction
+	for _, f := range e.clientFns() {
+		calls = append(calls, c16CacheCalls(f)...)
+	}
+	for _, call := range calls {
+		D := call.Parent()
+		dn := FnName(D)
 		name := CalleeName(call)
 		if name != c16Cache+"GetToken" && name != c16Cache+"Set" {
 			continue
@@ -1099,7 +1140,7 @@ func c16BearerKeys(e *c16Env) {
 			ifelse(okSame, "the fetch closure reads the same scope variable, unchanged since the key was computed", "the token is fetched for a scope list other than the one it is cached under: "+why2))
 	}
 	if idx == 0 {
-		c.LostAnchor(R, dn+": bearer cache calls")
+		c.LostAnchor(R, "bearer cache calls in package auth")
 	}
 }
 
@@ -1155,95 +1196,141 @@ func c16Budget(fn *ssa.Function, from *ssa.BasicBlock, weight func(ssa.Instructi
 	return r.max, r.min, inLoop
 }
 
+// c16Weigher gives every call the maximum leaf weight its in-package static
+// callee can accumulate on one path (interprocedural longest path, no recursion).
+type c16Weigher struct {
+	c         *Ctx
+	leaf      func(ssa.CallInstruction) int
+	memo      map[*ssa.Function]int
+	onStack   map[*ssa.Function]bool
+	undecided string
+}
+
+func (w *c16Weigher) instr(in ssa.Instruction) int {
+	call, ok := in.(ssa.CallInstruction)
+	if !ok {
+		return 0
+	}
+	if k := w.leaf(call); k > 0 {
+		return k
+	}
+	g := StaticCallee(call)
+	if g == nil || fnPkgPath(g) != pkgPath(c16Pkg) {
+		return 0
+	}
+	return w.fn(g, 1)
+}
+
+func (w *c16Weigher) fn(f *ssa.Function, depth int) int {
+	if w.memo == nil {
+		w.memo, w.onStack = map[*ssa.Function]int{}, map[*ssa.Function]bool{}
+	}
+	if v, ok := w.memo[f]; ok {
+		return v
+	}
+	if w.onStack[f] || len(w.onStack) > 8 {
+		w.undecided = "recursion through " + FnName(f)
+		return 0
+	}
+	if len(f.Blocks) == 0 {
+		return 0
+	}
+	w.onStack[f] = true
+	mx, _, loop := c16Budget(f, f.Blocks[0], w.instr)
+	delete(w.onStack, f)
+	if loop != nil {
+		w.undecided = "a counted call sits inside a loop in " + FnName(f) + " at " + w.c.P.Pos(loop.Pos())
+	}
+	w.memo[f] = mx
+	return mx
+}
+
+// clientFns: the functions of package auth that use a Cache (everything but
+// the methods of types implementing the Cache interface, whose forwarding is
+// checked by R3).
+func (e *c16Env) clientFns() []*ssa.Function {
+	iface := e.c.P.Named(c16Pkg, "Cache")
+	var out []*ssa.Function
+	for _, f := range e.fns {
+		root := f
+		for root.Parent() != nil {
+			root = root.Parent()
+		}
+		if iface != nil && root.Signature.Recv() != nil {
+			if it, ok := iface.Underlying().(*types.Interface); ok && (types.Implements(root.Signature.Recv().Type(), it) || types.Implements(types.NewPointer(root.Signature.Recv().Type()), it)) {
+				continue
+			}
+		}
+		out = append(out, f)
+	}
+	return out
+}
+
 func c16R4(e *c16Env) {
 	const R = "C16.R4.send-budget"
 	c := e.c
 	c.Expect(R, 5)
 	D := e.Do
 	dn := FnName(D)
-	// interprocedural send weight
-	memo := map[*ssa.Function]int{}
-	onStack := map[*ssa.Function]bool{}
-	var undecided string
-	var maxSends func(f *ssa.Function, depth int) int
-	weightIn := func(depth int) func(ssa.Instruction) int {
-		return func(in ssa.Instruction) int {
-			call, ok := in.(ssa.CallInstruction)
-			if !ok {
-				return 0
-			}
-			if CalleeName(call) == c16HTTPDo {
-				return 1
-			}
-			g := StaticCallee(call)
-			if g == nil || fnPkgPath(g) != pkgPath(c16Pkg) || g.Parent() != nil && call.Common().Value != nil && false {
-				return 0
-			}
-			return maxSends(g, depth+1)
+	// interprocedural weights: a call weighs what its in-package static callee can do at most
+	sendsW := &c16Weigher{c: c, leaf: func(call ssa.CallInstruction) int {
+		if CalleeName(call) == c16HTTPDo {
+			return 1
 		}
-	}
-	maxSends = func(f *ssa.Function, depth int) int {
-		if v, ok := memo[f]; ok {
-			return v
+		return 0
+	}}
+	setsW := &c16Weigher{c: c, leaf: func(call ssa.CallInstruction) int {
+		if CalleeName(call) == c16Cache+"Set" {
+			return 1
 		}
-		if onStack[f] || depth > 6 {
-			undecided = "recursion through " + FnName(f)
-			return 0
-		}
-		if len(f.Blocks) == 0 {
-			return 0
-		}
-		onStack[f] = true
-		mx, _, loop := c16Budget(f, f.Blocks[0], weightIn(depth))
-		onStack[f] = false
-		if loop != nil {
-			undecided = "a request is sent inside a loop in " + FnName(f) + " at " + c.P.Pos(loop.Pos())
-		}
-		memo[f] = mx
-		return mx
-	}
-	w := weightIn(0)
+		return 0
+	}}
+	maxSends := func(f *ssa.Function, _ int) int { return sendsW.fn(f, 1) }
+	w := sendsW.instr
 	mx, _, loop := c16Budget(D, D.Blocks[0], w)
 	switch {
 	case loop != nil:
 		c.Undecided(R, dn+"|sends<=3", loop.Pos(), "a send sits inside a loop of Client.Do: the number of sends is not bounded by the path structure")
-	case undecided != "":
-		c.Undecided(R, dn+"|sends<=3", D.Pos(), undecided)
+	case sendsW.undecided != "":
+		c.Undecided(R, dn+"|sends<=3", D.Pos(), sendsW.undecided)
 	default:
 		c.Check(R, dn+"|sends<=3", D.Pos(), mx <= 3 && mx >= 1,
 			ifelse(mx <= 3 && mx >= 1, fmt.Sprintf("the longest path of Client.Do performs %d sends (cached attempt, scope-change attempt, attempt with fresh token)", mx),
 				fmt.Sprintf("a path of Client.Do performs %d sends to the registry (at most 3 allowed: the same credentials are replayed against a registry that keeps answering 401)", mx)))
 	}
-	isSet := func(in ssa.Instruction) int {
-		if call, ok := in.(ssa.CallInstruction); ok && CalleeName(call) == c16Cache+"Set" {
-			return 1
-		}
-		return 0
-	}
-	ms, _, loopS := c16Budget(D, D.Blocks[0], isSet)
-	if loopS != nil {
+	ms, _, loopS := c16Budget(D, D.Blocks[0], setsW.instr)
+	switch {
+	case loopS != nil:
 		c.Undecided(R, dn+"|token-fetches<=1", loopS.Pos(), "Cache.Set sits inside a loop of Client.Do")
-	} else {
+	case setsW.undecided != "":
+		c.Undecided(R, dn+"|token-fetches<=1", D.Pos(), setsW.undecided)
+	default:
 		c.Check(R, dn+"|token-fetches<=1", D.Pos(), ms == 1,
 			ifelse(ms == 1, "at most one Cache.Set (token fetch) on any path", fmt.Sprintf("a path of Client.Do runs %d token fetches (Cache.Set); at most one is allowed", ms)))
 	}
 	// each token fetch is at most one request
 	nf := 0
-	for _, call := range c16CacheCalls(D) {
-		if CalleeName(call) != c16Cache+"Set" {
-			continue
-		}
+	var setCalls []ssa.CallInstruction
+	for _, f := range e.clientFns() {
+		setCalls = append(setCalls, CallsTo(f, c16Cache+"Set")...)
+	}
+	for _, call := range setCalls {
 		args := call.Common().Args
-		mc, ok := args[len(args)-1].(*ssa.MakeClosure)
-		if !ok {
-			c.Undecided(R, dn+"|fetch-is-one-request", call.Pos(), "the fetch argument of Cache.Set is not a function literal")
+		var mc *ssa.MakeClosure
+		for _, r := range Roots(args[len(args)-1]) {
+			if m, ok := r.(*ssa.MakeClosure); ok && len(Roots(args[len(args)-1])) == 1 {
+				mc = m
+			}
+		}
+		if mc == nil {
+			c.Undecided(R, FnName(call.Parent())+"|fetch-is-one-request", call.Pos(), "the fetch argument of Cache.Set is not a function literal")
 			continue
 		}
 		nf++
-		undecided = ""
+		sendsW.undecided = ""
 		m := maxSends(mc.Fn.(*ssa.Function), 1)
-		if undecided != "" {
-			c.Undecided(R, fmt.Sprintf("%s|fetch-is-one-request", FnName(mc.Fn.(*ssa.Function))), call.Pos(), undecided)
+		if sendsW.undecided != "" {
+			c.Undecided(R, fmt.Sprintf("%s|fetch-is-one-request", FnName(mc.Fn.(*ssa.Function))), call.Pos(), sendsW.undecided)
 			continue
 		}
 		c.Check(R, fmt.Sprintf("%s|fetch-is-one-request", FnName(mc.Fn.(*ssa.Function))), call.Pos(), m <= 1,
@@ -1560,6 +1647,7 @@ var c16Mutants = []Mutant{
 	{Name: "token-stored-under-empty-key", File: "registry/remote/auth/cache.go", Old: "\tentry.tokens.Store(key, token)", New: "\tentry.tokens.Store(\"\", token)", Expect: "C16.R3"},
 	{Name: "entry-looked-up-by-key", File: "registry/remote/auth/cache.go", Old: "func (cc *concurrentCache) GetToken(ctx context.Context, registry string, scheme Scheme, key string) (string, error) {\n\tentryValue, ok := cc.cache.Load(registry)", New: "func (cc *concurrentCache) GetToken(ctx context.Context, registry string, scheme Scheme, key string) (string, error) {\n\tentryValue, ok := cc.cache.Load(key)", Expect: "C16.R3"},
 	{Name: "challenge-scopes-not-cleaned", File: "registry/remote/auth/client.go", Old: "\t\t\tscopes = append(scopes, strings.Split(paramScope, \" \")...)\n\t\t\tscopes = CleanScopes(scopes)\n", New: "\t\t\tscopes = append(scopes, strings.Split(paramScope, \" \")...)\n", Expect: "C16.R3.bearer-key"},
+	{Name: "bearer-key-joined-with-comma", File: "registry/remote/auth/client.go", Old: "\t\tkey := strings.Join(scopes, \" \")\n", New: "\t\tkey := strings.Join(scopes, \",\")\n", Expect: "C16.R3.bearer-key"},
 	{Name: "token-fetched-for-challenge-scopes-only", File: "registry/remote/auth/client.go", Old: "return c.fetchBearerToken(ctx, host, realm, service, scopes)", New: "return c.fetchBearerToken(ctx, host, realm, service, strings.Split(params[\"scope\"], \" \"))", Expect: "C16.R3.bearer-key"},
 	// R4
 	{Name: "fourth-send-on-401", File: "registry/remote/auth/client.go", Old: "\n\treturn c.send(req)\n}", New: "\n\tresp, err = c.send(req)\n\tif err == nil && resp.StatusCode == http.StatusUnauthorized {\n\t\tresp.Body.Close()\n\t\treturn c.send(req)\n\t}\n\treturn resp, err\n}", Expect: "C16.R4"},
